@@ -411,6 +411,15 @@ coap_oscore_new_pdu_encrypted_lkd(coap_session_t *session,
     snd_ctx = osc_ctx->sender_context;
     cose_encrypt0_set_partial_iv(cose, association->partial_iv);
     cose_encrypt0_set_aad(cose, association->aad);
+    /*
+     * RFC8613 4.1.3.5.2: every response to an Observe request (also an
+     * error or one without Observe option) carries its own Partial IV.
+     * The association stays, so the nonce of the request could otherwise
+     * be used for more than one response.
+     */
+    if (association->is_observe && !doing_observe &&
+        send_partial_iv == OSCORE_SEND_NO_IV)
+      send_partial_iv = OSCORE_SEND_PARTIAL_IV;
   }
 
   cose_encrypt0_set_alg(cose, osc_ctx->aead_alg);
